@@ -165,4 +165,43 @@ theorem hamming_first (N : ℕ) (hN : 2 ≤ N) : (hamming realT N).head? = some 
 theorem hamming_antitone (N : ℕ) (hN : 2 ≤ N) : (hamming realT N).Pairwise (· ≥ ·) := by
   unfold hamming; exact cos_window_antitone 0.53836 0.46164 (by norm_num) N hN
 
+/-- sin2 = cos(π − a/2)² = cos²(a/2) on the ramp a ∈ [0, π] -/
+theorem sin2_eq (a : ℝ) : (Real.cos (-(1 / 2) * a + Real.pi)) * (Real.cos (-(1 / 2) * a + Real.pi)) =
+    Real.cos (a / 2) * Real.cos (a / 2) := by
+  have : -(1 / 2) * a + Real.pi = Real.pi - a / 2 := by ring
+  rw [this, Real.cos_pi_sub]
+  ring
+
+theorem sin2_first (N : ℕ) (hN : 2 ≤ N) : (sin2 realT N).head? = some 1 := by
+  unfold sin2 ramp
+  obtain ⟨m, rfl⟩ : ∃ m, N = m + 1 := ⟨N - 1, by omega⟩
+  simp [List.range_succ_eq_map, realT]
+
+/-- sin2 never increases along the axis -/
+theorem sin2_antitone (N : ℕ) (hN : 2 ≤ N) : (sin2 realT N).Pairwise (· ≥ ·) := by
+  unfold sin2 ramp
+  rw [List.pairwise_map, List.pairwise_map]
+  have hr : (List.range N).Pairwise (fun a b => a < b ∧ b < N) := by
+    rw [List.pairwise_iff_getElem]
+    intro i j hi hj hij
+    simp only [List.getElem_range]
+    simp at hj
+    exact ⟨hij, hj⟩
+  refine hr.imp ?_
+  intro a b ⟨hab, hb⟩
+  simp only [realT, ge_iff_le]
+  rw [sin2_eq, sin2_eq]
+  have ha := ramp_mem N hN a (by omega)
+  have hb' := ramp_mem N hN b hb
+  have hpos : (0 : ℝ) < ((N - 1 : ℕ) : ℝ) := by exact_mod_cast (by omega : 0 < N - 1)
+  have hle : Real.pi * a / ((N - 1 : ℕ) : ℝ) ≤ Real.pi * b / ((N - 1 : ℕ) : ℝ) := by
+    apply div_le_div_of_nonneg_right _ hpos.le
+    have : (a : ℝ) ≤ b := by exact_mod_cast hab.le
+    nlinarith [Real.pi_pos]
+  have h1 : Real.cos (Real.pi * b / ((N - 1 : ℕ) : ℝ) / 2) ≤ Real.cos (Real.pi * a / ((N - 1 : ℕ) : ℝ) / 2) :=
+    Real.cos_le_cos_of_nonneg_of_le_pi (by linarith [ha.1]) (by linarith [hb'.2, Real.pi_pos]) (by linarith)
+  have h0 : 0 ≤ Real.cos (Real.pi * b / ((N - 1 : ℕ) : ℝ) / 2) :=
+    Real.cos_nonneg_of_neg_pi_div_two_le_of_le (by linarith [hb'.1, Real.pi_pos]) (by linarith [hb'.2])
+  nlinarith
+
 end Dnp.C15
